@@ -109,7 +109,10 @@
 use core::cell::Cell;
 use core::ptr;
 use core::sync::atomic::Ordering::*;
+#[cfg(not(arc_swap_verif))]
 use core::sync::atomic::{AtomicPtr, AtomicUsize};
+#[cfg(arc_swap_verif)]
+use arc_swap_verif_rt::atomic::{AtomicPtr, AtomicUsize};
 
 use super::Debt;
 use crate::RefCnt;
